@@ -292,3 +292,21 @@ def run(ctx):
         m.rel,
         nr.lineno,
     )
+
+    # ---- C20.11 a tag's identity includes the kind of entity it is attached to -------------------------
+    # Tag rows are de-duplicated by tag hash (C21.7 / record_tags).  Entity ids of different kinds can coincide -- a Task recorded as a Value has
+    # value_hash == task.hash -- so a tag hash that leaves out the entity type makes `k=v on the task` and `k=v on the task value` one tag.
+    r11 = ctx.rule("C20.11", "hash_tag's pre-image contains the entity type", floor=1)
+    hm11 = repo.mod("redun/hashing.py")
+    ht = hm11.func("hash_tag")
+    params11 = [a.arg for a in ht.args.args]
+    pre = [c for c in calls_in(ht) if call_name(c) == "hash_struct"]
+    ok11 = bool(pre) and any("entity_type" in src(a) for c in pre for a in c.args)
+    r11.check(
+        ok11,
+        f"{hm11.rel}:hash_tag:entity-type",
+        f"hash_tag({', '.join(params11)}) hashes the entity id without the entity type: with @task(tags=[('k','v')]) on task t and apply_tags(t, tags=[('k','v')]) in the same run, the Value tag "
+        "has the hash of the Task tag (a task's value hash is its task hash), record_tags takes it for a duplicate and the tag intended for the value is never attached",
+        hm11.rel,
+        ht.lineno,
+    )
